@@ -841,6 +841,66 @@ def custom_prior_fn(case):
 
 
 # ----------------------------------------------------------------------------------------------
+# a user-defined forward model that registers its parameters after the base-class constructor (one per coefficient, the
+# way the gas and temperature classes do) and whose bounds are changed through the Fittable interface afterwards
+# ----------------------------------------------------------------------------------------------
+def custom_model_fn(case):
+    from taurex.model import ForwardModel
+    from taurex.core import derivedparam
+    from taurex.optimizer.optimizer import Optimizer
+    r = core.R(case)
+    _, obs, _ = world()
+
+    class Poly(ForwardModel):
+        def __init__(self, coeffs):
+            super().__init__('Poly')
+            self._c = [float(c_) for c_ in coeffs]
+            for idx in range(len(self._c)):
+                def read_c(self, idx=idx):
+                    return self._c[idx]
+
+                def write_c(self, value, idx=idx):
+                    self._c[idx] = value
+                self.add_fittable_param('coeff_%d' % idx, '$c_%d$' % idx, read_c, write_c, 'linear', False, [-10.0, 10.0])
+
+        def build(self):
+            pass
+
+        def model(self, wngrid=None, cutoff_grid=True):
+            x = np.array(WN) / 1000.0
+            return np.array(WN), sum(c_ * x ** k_ for k_, c_ in enumerate(self._c)), None, None
+
+    m = Poly([1.0, 2.0, 3.0])
+    if case['late_bounds']:
+        m.modify_bounds('coeff_1', [-2.5, 7.5])
+    opt = Optimizer('c07m', obs, m)
+    try:
+        for op in case['ops']:
+            getattr(opt, op[0])(*op[1:])
+        opt.compile_params()
+    except Exception as e:
+        r.check(False, 'no-exception', 'custom-model/raised/%s' % type(e).__name__, exc=repr(e), ops=case['ops'])
+        return r
+    want = [n_ for n_ in ('coeff_0', 'coeff_1', 'coeff_2') if any(o_[0] == 'enable_fit' and o_[1] == n_ for o_ in case['ops'])
+            and not any(o_[0] == 'disable_fit' and o_[1] == n_ for o_ in case['ops'][[i_ for i_, o2 in enumerate(case['ops'])
+                        if o2[0] == 'enable_fit' and o2[1] == n_][-1]:])]
+    names = [strip(n_) for n_ in opt.fit_names]
+    r.check(sorted(names) == sorted(want), 'compiled-view', 'custom-model/fitted-set', got=names, want=want)
+    for n_, b_ in zip(names, opt.fit_boundaries):
+        explicit = [o_[2] for o_ in case['ops'] if o_[0] == 'set_boundary' and o_[1] == n_]
+        wb = explicit[-1] if explicit else ([-2.5, 7.5] if (n_ == 'coeff_1' and case['late_bounds']) else [-10.0, 10.0])
+        r.check(feq(min(b_), min(wb)) and feq(max(b_), max(wb)), 'compiled-view', 'custom-model/boundaries', name=n_,
+                got=list(b_), want=wb)
+    vec = [0.25 * (i_ + 1) for i_ in range(len(names))]
+    opt.update_model(list(vec))
+    for n_, v_ in zip(names, vec):
+        r.check(feq(m.fittingParameters[n_][2](), v_), 'update-writes-prior-transformed', 'custom-model/update', name=n_)
+    r.observe(names, [list(b_) for b_ in opt.fit_boundaries])
+    r.nontrivial = bool(names)
+    return r
+
+
+# ----------------------------------------------------------------------------------------------
 # alphabets and exploration
 # ----------------------------------------------------------------------------------------------
 def alphabet(params, derived, priors=('U', 'LU', 'G'), errors='few', updates=('v1', 'v2'), spelled=False):
@@ -900,6 +960,11 @@ def explore(ctx):
                                                        [['planet_radius', 'shifted'], ['T', 'folded']])
           for vs in itertools.permutations(['in', 'below', 'above'], 2)]
     ctx.run_cases('custom_prior_fn', cp, phase='custom-prior')
+    mops = [['enable_fit', 'coeff_0'], ['enable_fit', 'coeff_1'], ['enable_fit', 'coeff_2'], ['disable_fit', 'coeff_1'],
+            ['set_boundary', 'coeff_1', [0.5, 4.0]], ['set_mode', 'coeff_2', 'linear']]
+    cm = [{'ops': [list(o_) for o_ in h], 'late_bounds': lb} for k_ in (1, 2, 3) for h in itertools.product(mops, repeat=k_)
+          for lb in (False, True)]
+    ctx.run_cases('custom_model_fn', cm, phase='custom-model')
     # writes from outside the optimiser interleaved with (repeated, identical) update_model vectors
     ext = [['enable_fit', 'T'], ['compile_params'], ['update_model', 'v1'], ['update_model', 'v2'],
            ['external_set', 'planet_radius', 'x1'], ['external_set', 'T', 'x1'], ['external_set', 'T', 'x2']]
